@@ -306,6 +306,8 @@ def run_impl(cases):
 
 # ------------------------------------------------------------------ Coq emission
 def z(n):
+    if not isinstance(n, int) or isinstance(n, bool):
+        return '(-987654321)'      # not an integer at all: never equals what the model computes
     return '(%d)' % n if n < 0 else '%d' % n
 
 
@@ -314,7 +316,10 @@ def cval(v):
         return 'VNull'
     if v == 'bad' or isinstance(v, str):
         return 'VBad'
-    return '(VInt %s)' % z(int(v))
+    try:
+        return '(VInt %s)' % z(int(v))
+    except (TypeError, ValueError):
+        return 'VBad'
 
 
 def ckind(k):
